@@ -270,7 +270,7 @@ fn pipe(mode: Mode) {
 			}
 			spins += 1;
 			thread::yield_now();
-			if spins > 400_000 {
+			if spins > 100_000 {
 				panic!("VIOL C15 no-progress: pipeline not drained after {spins} yields of the idle client (queued {}, files to read {}, logged bytes {})", c.0, c.2, c.4);
 			}
 		}
@@ -433,8 +433,17 @@ fn treelock() {
 	let dir = fresh_dir();
 	let mut rng = shuttle::rand::thread_rng();
 	let direct = rng.gen_bool(0.5);
+	// half of the executions use reference-counted roots: every tree is referenced once more
+	// after its insertion and has to be dereferenced twice
+	let rc_roots = rng.gen_bool(0.5);
 	let mut o = Options::with_columns(std::path::Path::new(&dir), 1);
-	o.columns[0] = ColumnOptions { multitree: true, allow_direct_node_access: direct, ..Default::default() };
+	o.columns[0] = ColumnOptions {
+		multitree: true,
+		allow_direct_node_access: direct,
+		preimage: rc_roots,
+		ref_counted: rc_roots,
+		..Default::default()
+	};
 	o.salt = Some([5u8; 32]);
 	o.stats = false;
 	o.with_background_thread = false;
@@ -477,9 +486,13 @@ fn treelock() {
 			Err(e) => Err(format!("get_root failed: {e}")),
 		}
 	}
-	// writer: inserts successor trees that share the first child of the previous one, then the
-	// pruner dereferences older trees
+	// writer: inserts successor trees that share the first child of the previous one; the pruner
+	// dereferences every tree but the last one
 	let inserted = Arc::new(AtomicUsize::new(0));
+	// number of DereferenceTree commits that have returned, per tree
+	let derefs: Arc<Vec<AtomicUsize>> = Arc::new((0..8).map(|_| AtomicUsize::new(0)).collect());
+	// number of DereferenceTree commit calls that have begun, per tree
+	let derefs_started: Arc<Vec<AtomicUsize>> = Arc::new((0..8).map(|_| AtomicUsize::new(0)).collect());
 	let writer = {
 		let db = db.clone();
 		let inserted = inserted.clone();
@@ -489,6 +502,11 @@ fn treelock() {
 				let key = vec![b't', t];
 				if let Err(e) = db.commit_changes(vec![(0u8, Operation::InsertTree(key.clone(), tree(t, prev)))]) {
 					panic!("VIOL C11 insert-failed: {e}");
+				}
+				if rc_roots {
+					if let Err(e) = db.commit_changes(vec![(0u8, Operation::ReferenceTree(key.clone()))]) {
+						panic!("VIOL C11 reference-failed: {e}");
+					}
 				}
 				inserted.fetch_add(1, Ordering::SeqCst);
 				// learn the address of the first child for sharing
@@ -505,14 +523,24 @@ fn treelock() {
 	let pruner = {
 		let db = db.clone();
 		let inserted = inserted.clone();
+		let derefs = derefs.clone();
+		let derefs_started = derefs_started.clone();
 		thread::spawn(move || {
+			let mut rng = shuttle::rand::thread_rng();
 			let mut next = 0u8;
 			let mut spins = 0;
-			while next + 1 < ntrees && spins < 2000 {
+			while next + 1 < ntrees && spins < 4000 {
 				if (inserted.load(Ordering::SeqCst) as u8) > next + 1 {
 					let key = vec![b't', next];
-					if let Err(e) = db.commit_changes(vec![(0u8, Operation::DereferenceTree(key))]) {
-						panic!("VIOL C11 dereference-failed: {e}");
+					for _ in 0..(if rc_roots { 2 } else { 1 }) {
+						derefs_started[next as usize].fetch_add(1, Ordering::SeqCst);
+						if let Err(e) = db.commit_changes(vec![(0u8, Operation::DereferenceTree(key.clone()))]) {
+							panic!("VIOL C11 dereference-failed: {e}");
+						}
+						derefs[next as usize].fetch_add(1, Ordering::SeqCst);
+						for _ in 0..(if rng.gen_bool(0.5) { rng.gen_range(0..6) } else { rng.gen_range(20..80) }) {
+							thread::yield_now();
+						}
 					}
 					next += 1;
 				} else {
@@ -526,20 +554,51 @@ fn treelock() {
 	let mut readers = Vec::new();
 	for ri in 0..nreaders {
 		let db = db.clone();
+		let derefs = derefs.clone();
+		let derefs_started = derefs_started.clone();
 		readers.push(thread::spawn(move || {
 			let mut rng = shuttle::rand::thread_rng();
-			for _ in 0..3 {
-				let t: u8 = rng.gen_range(0..ntrees);
+			for round in 0..3 {
+				// bias toward the tree that is dereferenced last (nothing is committed after it)
+				let t: u8 = if rng.gen_bool(0.6) { ntrees.saturating_sub(2) } else { rng.gen_range(0..ntrees) };
 				let key = vec![b't', t];
-				let reader = match db.get_tree(0, &key) {
-					Ok(Some(r)) => r,
-					Ok(None) => {
+				// fetch the handle first, lock it some time later
+				let mut reader = None;
+				for _ in 0..40 {
+					match db.get_tree(0, &key) {
+						Ok(Some(r)) => {
+							reader = Some(r);
+							break
+						},
+						Ok(None) => thread::yield_now(),
+						Err(e) => panic!("VIOL C11 get-tree-failed: {e}"),
+					}
+				}
+				let Some(reader) = reader else { continue };
+				for _ in 0..rng.gen_range(0..12) {
+					thread::yield_now();
+				}
+				// sometimes the handle is kept unlocked until the first of two dereferences of
+				// this tree has been committed (and had time to be processed)
+				if rc_roots && t + 1 < ntrees && rng.gen_bool(0.4) {
+					let mut waited = 0;
+					// ... and processed: nothing is queued any more
+					while (derefs[t as usize].load(Ordering::SeqCst) < 1 || db.verif_pipeline_counts().0 > 0) && waited < 600 {
+						waited += 1;
 						thread::yield_now();
-						continue
-					},
-					Err(e) => panic!("VIOL C11 get-tree-failed: {e}"),
-				};
+					}
+					for _ in 0..rng.gen_range(0..8) {
+						thread::yield_now();
+					}
+					probe("handle_kept_unlocked_until_first_dereference");
+				}
 				let g = reader.read();
+				// Had the last dereference of this tree already been submitted when the lock was
+				// obtained? Then its removal may already have been planned by the log worker (the
+				// check for held readers and the plan are not atomic with publishing the record):
+				// known finding. Otherwise the lock precedes the dereference and must be honoured.
+				let need_all = if rc_roots { 2 } else { 1 };
+				let final_submitted = derefs_started[t as usize].load(Ordering::SeqCst) >= need_all;
 				// the tree may already be gone when the lock is obtained; if it is there, it
 				// must stay complete and unchanged until the guard is dropped
 				let first = match digest(&**g) {
@@ -547,12 +606,25 @@ fn treelock() {
 					Err(_) => continue,
 				};
 				probe("tree_walked_under_lock");
-				for _ in 0..3 {
+				// in half of the rounds keep the lock until the pruner's dereference of this very
+				// tree has been committed (so that it is processed while the tree is held)
+				let wait_for_deref = rng.gen_bool(0.5) && t + 1 < ntrees;
+				let need = if rc_roots { 2 } else { 1 };
+				let mut waited = 0;
+				while wait_for_deref && derefs[t as usize].load(Ordering::SeqCst) < need && waited < 600 {
+					waited += 1;
+					thread::yield_now();
+				}
+				if wait_for_deref && waited < 600 {
+					probe("lock_held_across_dereference_commit");
+				}
+				for _ in 0..rng.gen_range(2..10) {
 					thread::yield_now();
 					match digest(&**g) {
 						Ok(d) if d == first => {},
-						Ok(_) => panic!("VIOL C11 locked-tree-changed: reader {ri}: tree {t} changed while its reader lock was held"),
-						Err(e) => panic!("VIOL C11 locked-tree-invalidated: reader {ri}: tree {t}: {e} while its reader lock was held"),
+						Ok(_) => panic!("VIOL C11 locked-tree-changed: reader {ri} round {round}: tree {t} changed while its reader lock was held"),
+						Err(e) if final_submitted => panic!("VIOL C11 locked-after-removal-was-planned: reader {ri} round {round}: tree {t}: {e} while its reader lock was held; the lock was obtained after the last dereference of this tree had been submitted"),
+						Err(e) => panic!("VIOL C11 locked-tree-invalidated: reader {ri} round {round}: tree {t}: {e} while its reader lock was held (lock obtained before the last dereference was submitted)"),
 					}
 				}
 			}
@@ -568,6 +640,32 @@ fn treelock() {
 			std::panic::resume_unwind(e);
 		}
 	}
+	// every reader lock is released: the postponed removals must now complete without any
+	// further client activity (all trees but the last one were dereferenced by the pruner)
+	let mut spins = 0u64;
+	loop {
+		let c = db.verif_pipeline_counts();
+		let mut left = Vec::new();
+		if c.0 == 0 {
+			for t in 0..ntrees.saturating_sub(1) {
+				match db.get_tree(0, &[b't', t]) {
+					Ok(None) => {},
+					Ok(Some(_)) => left.push(t),
+					Err(e) => panic!("VIOL C11 get-tree-failed: {e}"),
+				}
+			}
+			if left.is_empty() {
+				break
+			}
+		}
+		spins += 1;
+		thread::yield_now();
+		if spins > 60_000 {
+			let d: Vec<usize> = derefs.iter().take(ntrees as usize).map(|x| x.load(Ordering::SeqCst)).collect();
+			panic!("VIOL C11 postponed-removal-never-completes: after all reader locks were released and with no further commits, {} commit(s) are still queued and trees {:?} are still present (ref-counted roots: {rc_roots}, trees {ntrees}, dereference commits returned per tree {:?})", c.0, left, d);
+		}
+	}
+	probe("postponed_removals_completed");
 	db.verif_shutdown();
 	let mut ws: Vec<Option<thread::JoinHandle<()>>> = workers.into_iter().map(Some).collect();
 	for i in [2usize, 1, 0, 3] {
